@@ -84,6 +84,11 @@ def main():
                     k2 = dict(kw)
                     if c.get("sched_iter") and sched_list is not None:
                         k2["schedule"] = (T_ for T_ in sched_list)       # "an iterable of floats"
+                    elif c.get("sched_np") and sched_list is not None:
+                        import numpy as _np
+                        k2["schedule"] = _np.array(sched_list, dtype=float)
+                    elif c.get("sched_range") and sched_list is not None:
+                        k2["schedule"] = range(len(sched_list), 0, -1)   # temperatures n, n-1, ..., 1
                     return k2
                 if in_order_form and "in_order" in kw:
                     import numpy as _np
